@@ -15,6 +15,11 @@ CHECKS = {
    note="Trusts reference arithmetic; coefficient alphabets (7-16 members) instead of all coefficients.",
    technique="bounded-exhaustive enumeration of operand tuples against a reference model",
    engine="fields", design_ref="§4 C08"),
+ "C10": dict(category="exploration",
+   text="All trees of 2..16 leaves x all non-empty position subsets (65535 for 16 leaves) x all orders of small subsets, plus structured families on trees up to 1024 leaves: honest single/batch openings verify, decompress into exactly the naive paths and re-compress to the same opening; for every opening of the exhaustive trees every single-element mutation and every shape mutation (node/leaf/vector added, removed, duplicated, moved; depth -1,+1,0,62..65,255; positions replaced, out of range, duplicated, added, dropped, swapped, empty, 256; wrong root) must be answered by an error, never Ok and never a panic; single paths likewise. Six hashers.",
+   note="Assumes collision-freeness on the harness' distinct leaves; the canonical opening is prove_batch's value, validated by naive recomputation.",
+   technique="bounded-exhaustive enumeration of trees x position sets x mutations against naive recomputation",
+   engine="merkle", design_ref="§4 C10"),
  "C11": dict(category="exploration",
    text="All six hashers: byte strings of every length 0..200/330 x 3 contents and element lists of every length around the rate boundaries against independent references (blake3/sha3 crates; a textbook Rescue sponge / Jive compression written from the doc comments over plain residues); totality (panics are violations), length/trailing-zero separation over all pairs, base/extension typing and internal-representation independence, merge = documented definition for all ordered digest pairs, merge_with_int layout and pairwise injectivity over integer classes around the modulus; Rescue permutations vs the reference round function; frequency-domain MDS products vs plain matrix products on every state of {0,2^32-1,2^32,p-1}^8 and ^12 (3 limbs quick); constants vs defining equations and a pinned fingerprint.",
    note="Trusts the blake3/sha3 crates and refmath; constants are read from the crate's published tables and bound by equations + fingerprint; needs the crypto verif hook for crate-private functions.",
@@ -73,6 +78,7 @@ def main():
         "engines": [
             {"name": "kit", "path": "harness/kit", "serves_properties": ALL, "kind_free_text": "bounded-exhaustive explorer with watchdog (E1), level-synchronous explicit-state BFS (E2), evidence/replay/known-findings, reference arithmetic"},
             {"name": "fields", "path": "harness/bins/fields", "serves_properties": ["C07", "C08"], "kind_free_text": "alphabet products + representation reachability"},
+            {"name": "merkle", "path": "harness/bins/merkle", "serves_properties": ["C10"], "kind_free_text": "all subsets x all mutations of Merkle openings"},
             {"name": "hashes", "path": "harness/bins/hashes", "serves_properties": ["C11", "C19"], "kind_free_text": "reference sponge/coin; BFS over coin histories"},
             {"name": "serial", "path": "harness/bins/serial", "serves_properties": ["C12", "C13"], "kind_free_text": "round-trip enumeration over readers; BFS over reader histories"},
         ],
